@@ -25,7 +25,7 @@ REPO = os.environ.get("VERIF_REPO", "/repo")
 DROPPED = ["visibility qualifiers (pub, pub(crate), pub(super))",
            "attributes #[inline], #[allow(..)], #[derive(..)], #[repr(packed)], #[must_use]",
            "doc comments and line comments",
-           "debug_assert!(..) and log::*!(..) statements",
+           "debug_assert!(..) / debug_assert_eq!(..) / debug_assert_ne!(..) and log::*!(..) statements",
            "where a unit says msg_rule: message-text expressions (`format!(..)`, `\"literal\".into()`) are replaced by an opaque msg() -> String"]
 
 
@@ -84,7 +84,7 @@ def rewrite(txt, keep_pub=False):
     txt = re.sub(r"(?m)^\s*#\[(inline(\(always\))?|allow\([^\]]*\)|derive\([^\]]*\)|repr\(packed\)|must_use)\]\s*\n", "", txt)
     if not keep_pub:
         txt = re.sub(r"\bpub(\((crate|super)\))?\s+", "", txt)
-    txt = re.sub(r"(?s)\bdebug_assert!\s*\((?:[^()]|\((?:[^()]|\([^()]*\))*\))*\)\s*;", "", txt)
+    txt = re.sub(r"(?s)\bdebug_assert(?:_eq|_ne)?!\s*\((?:[^()]|\((?:[^()]|\([^()]*\))*\))*\)\s*;", "", txt)
     txt = re.sub(r"(?s)\blog::(trace|debug|info|warn|error)!\s*\((?:[^()]|\((?:[^()]|\([^()]*\))*\))*\)\s*;", "", txt)
     return txt
 
